@@ -84,6 +84,7 @@ def frame_bytes(item, world):
 def stream_to_bytes(items, key, world):
     out = bytearray()
     ends = []
+    acc = b''
     for i, it in enumerate(items):
         t = it.get('t')
         if t == 'http':
@@ -91,9 +92,14 @@ def stream_to_bytes(items, key, world):
             world.rec({"k": "srv", "i": i, "it": "http", "v": it.get('v', 'ok'), "len": len(b)})
         elif t == 'f':
             b, payload = frame_bytes(it, world)
+            if it['op'] in (1, 2):
+                acc = payload       # plain concatenation of the data message this frame belongs to
+            elif it['op'] == 0:
+                acc = acc + payload
             world.rec({"k": "srv", "i": i, "it": "f", "op": it['op'], "fin": it.get('fin', 1), "rsv1": it.get('rsv1', 0),
                        "rsv2": it.get('rsv2', 0), "rsv3": it.get('rsv3', 0), "mask": bool(it.get('mask', False)),
-                       "pl": codec.pv(payload), "len": len(b), "bad": it.get('bad', 'no')})
+                       "pl": codec.pv(payload), "acc": codec.pv(acc), "len": len(b),
+                       "ann": "huge" if str(it.get('announce', '')).startswith('huge') else "len"})
         elif t == 'raw':
             b = bytes(it['b'])
             world.rec({"k": "srv", "i": i, "it": "raw", "len": len(b)})
